@@ -33,7 +33,7 @@ def _fractionalise(case, rng):
 
 def gen_cases(seed, tier, n):
     out = []
-    profs = ["default", "fifo_steps", "fifo_tiny", "loader_mix", "default", "fifo_steps", "fifo_tiny", "loader_mix", "loader_mix", "fifo_steps", "loader_pad"]
+    profs = ["default", "fifo_steps", "fifo_tiny", "loader_mix", "default", "fifo_steps", "fifo_tiny", "loader_mix", "loader_s0", "fifo_steps", "loader_pad"]
     for i in range(n):
         c = tracegen.gen_case(seed, i, tracegen.PROFILES[profs[i % len(profs)]])
         rng = random.Random(seed * 7919 + i)
